@@ -117,6 +117,30 @@ def named_heap(st: 'State') -> H:
     return st.h
 
 
+def heap_closed(h: H, only=None):
+    """HEAP-CLOSED: a reference stored in a field of an allocated object is allocated (global invariant of the Python heap)"""
+    out = []
+    x = z3.Const('x!hc', Addr)
+    for a, t in h.schema.attrs.items():
+        if only is not None and ('f_' + a) not in only:
+            continue
+        if t.sort == Addr and not t.opt:
+            fx = h.f(a, x)
+            out.append(z3.ForAll([x], z3.Implies(z3.And(x >= 0, x < h.alloc), z3.And(fx >= 0, fx < h.alloc)), patterns=[fx]))
+        elif t.opt and t.kind in ('obj', 'list', 'dict', 'set'):
+            fx = h.f(a, x)
+            out.append(z3.ForAll([x], z3.Implies(z3.And(x >= 0, x < h.alloc, is_VRef(fx)), z3.And(v_a(fx) >= 0, v_a(fx) < h.alloc)),
+                                 patterns=[fx]))
+    v = z3.Const('v!hc', Val)
+    if only is not None and not ({'L_bag', 'D_has', 'D_val'} & only):
+        return out
+    out.append(z3.ForAll([x, v], z3.Implies(z3.And(x >= 0, x < h.alloc, h.bag(x, v) > 0, is_VRef(v)),
+                                            z3.And(v_a(v) >= 0, v_a(v) < h.alloc)), patterns=[h.bag(x, v)]))
+    out.append(z3.ForAll([x, v], z3.Implies(z3.And(x >= 0, x < h.alloc, h.has(x, v), is_VRef(h.val(x, v))),
+                                            z3.And(v_a(h.val(x, v)) >= 0, v_a(h.val(x, v)) < h.alloc)), patterns=[h.val(x, v)]))
+    return out
+
+
 def list_axioms(h: H):
     """list theory: multiplicities and lengths are non-negative (for every list object of heap h)"""
     l = z3.Const('l!la', Addr)
